@@ -169,6 +169,13 @@ func (m *Machine) callValue(s *State, f *Frame, x *ssa.Call, cc *ssa.CallCommon,
 			s.fail("unsupported", "cannot resolve "+cc.Method.Name())
 			return nil
 		}
+		if rep, ok := m.replace[fn.String()]; ok {
+			if rf := m.hpkg.Func(rep); rf != nil {
+				m.stubs["engine-side replacement of "+fn.String()+" by harness model "+rep]++
+				m.pushFrame(s, rf, append([]Value{recv.v}, args...), nil, dest)
+				return nil
+			}
+		}
 		if x != nil && !m.initPkgs[fnPkgPath(fn)] {
 			// interface call that lands on a library method with an intrinsic model
 			if r, handled := m.intrinsic(s, f, x, fn.String(), fn, append([]Value{recv.v}, args...)); handled {
